@@ -153,6 +153,11 @@ Proof.
   apply (get_digest_entries_put d [] r); assumption.
 Qed.
 
+(* the decompression buffer of the reader holds any block the layout allows (a block's payload
+   length is a u16); re-checked against the regenerated constants on every run *)
+Lemma decompress_cap_covers_a_block : u16_max <= P_DECOMPRESS_CAP.
+Proof. vm_compute. discriminate. Qed.
+
 (* ---------- the block stream ---------- *)
 Section StreamRT.
   Variable zc : bytes -> option bytes.
@@ -164,7 +169,7 @@ Section StreamRT.
   (* [enc_blocks n out data]: [out] is a sequence of n well-formed blocks carrying [data] *)
   Inductive enc_blocks : nat -> bytes -> bytes -> Prop :=
   | enc_nil : enc_blocks 0 [] []
-  | enc_comp n o d c blk : enc_blocks n o d -> zd c = Some blk -> len c <= u16_max ->
+  | enc_comp n o d c blk : enc_blocks n o d -> zd c = Some blk -> len c <= u16_max -> len blk <= P_DECOMPRESS_CAP ->
       enc_blocks (S n) (o ++ put_u8 1 ++ put_u16 (len c) ++ c) (d ++ blk)
   | enc_raw n o d blk : enc_blocks n o d -> len blk <= u16_max ->
       enc_blocks (S n) (o ++ put_u8 2 ++ put_u16 (len blk) ++ blk) (d ++ blk).
@@ -172,13 +177,13 @@ Section StreamRT.
   Lemma enc_blocks_read n o d : enc_blocks n o d ->
     forall tail acc fuel, read_blocks zd (n + fuel) (o ++ tail) acc = read_blocks zd fuel tail (acc ++ d).
   Proof.
-    induction 1 as [|n o d c blk He IH Hz Hl|n o d blk He IH Hl]; intros tail acc fuel.
+    induction 1 as [|n o d c blk He IH Hz Hl Hcap|n o d blk He IH Hl]; intros tail acc fuel.
     - cbn. rewrite app_nil_r. reflexivity.
     - rewrite <- app_assoc. replace (S n + fuel)%nat with (n + S fuel)%nat by lia. rewrite IH.
       cbn [read_blocks]. rewrite <- !app_assoc. rewrite get_u8_put by lia.
       change (1 =? 0) with false. change (1 =? 1) with true. cbv iota.
       rewrite get_u16_put by exact Hl. unfold len at 1. rewrite Nat2N.id, take_bytes_app, Hz.
-      rewrite app_assoc. reflexivity.
+      rewrite (proj2 (N.leb_le _ _) Hcap). rewrite app_assoc. reflexivity.
     - rewrite <- app_assoc. replace (S n + fuel)%nat with (n + S fuel)%nat by lia. rewrite IH.
       cbn [read_blocks]. rewrite <- !app_assoc. rewrite get_u8_put by lia.
       change (2 =? 0) with false. change (2 =? 1) with false. change (2 =? 2) with true. cbv iota.
@@ -208,7 +213,9 @@ Section StreamRT.
     { rewrite <- app_assoc, firstn_skipn. exact Hall. }
     destruct (zc (firstn k (w_pend w))) as [c|] eqn:Ez; (split; [exact Ht|split; [exact Hu|]]); cbn [w_out w_pend w_thr].
     - exists (S n), (d ++ firstn k (w_pend w)). split; [|exact Hsplit].
-      apply enc_comp; [exact He|apply zd_zc; exact Ez|]. apply zc_len in Ez. lia.
+      apply enc_comp; [exact He|apply zd_zc; exact Ez| |].
+      + apply zc_len in Ez. lia.
+      + pose proof decompress_cap_covers_a_block. lia.
     - exists (S n), (d ++ firstn k (w_pend w)). split; [|exact Hsplit].
       apply enc_raw; [exact He|lia].
   Qed.
